@@ -260,6 +260,8 @@ pub struct Stats {
     pub conflicts: u64,
     pub pending_states: u64,
     pub checks: u64,
+    /// complete op-delivery schedules (maximal paths through the lattice) the explored histories stand for
+    pub schedules: u64,
 }
 impl Stats {
     pub fn absorb(&mut self, o: &Stats) {
@@ -275,6 +277,7 @@ impl Stats {
         self.conflicts += o.conflicts;
         self.pending_states += o.pending_states;
         self.checks += o.checks;
+        self.schedules = self.schedules.saturating_add(o.schedules);
     }
     pub fn transitions(&self) -> u64 {
         self.applies + self.merges + self.aux_transitions
@@ -684,6 +687,7 @@ fn explore_rec<Y: Sys>(h: &mut Hist<Y>, cfg: &Cfg, v: &mut dyn Visitor<Y>, st: &
                 let r = std::panic::catch_unwind(std::panic::AssertUnwindSafe(|| {
                     h.extend(Rec { author: a, cmd: c, vis, variant: variant as u8, op: op.clone() }, cfg, st);
                     st.histories += 1;
+                    st.schedules = st.schedules.saturating_add(count_schedules(h, cfg.disc));
                     if vis != (1u32 << i) - 1 {
                         st.conflicts += 1; // the new op is concurrent with some earlier op
                     }
